@@ -3,12 +3,13 @@
    the top level, second at every nested level, daughters sorted at every level); it is the same
    string whatever order daughters and sub-decays were given in (dictionary level [ceq] and chain
    level); patterns render by plain substitution.
-   NOT proved (partial): character-level read-back injectivity; it is exercised by the
-   correspondence run with an independent bracket-matching reader on the implementation's strings. *)
+   With the default patterns the descriptor DETERMINES the tree (C13_descriptor_determines_tree / _iff_same_tree, character
+   level, names may contain balanced parentheses): Decay/DescriptorInjective.v.  Executed only: user-defined patterns
+   (injectivity depends on the pattern), and the independent bracket-matching reader run on the implementation's strings. *)
 From Coq Require Import String List Bool ZArith QArith Arith Permutation.
 From DL Require Import Fmt.DescFormat Fmt.PatternSpec.
 From DL Require Import Lib.Val Lib.PyDict Lib.Sort Decay.Conj Decay.Flatten Decay.ChainDict Decay.ChainClass
-  Decay.DescriptorProofs.
+  Decay.DescriptorProofs Decay.DescriptorInjective.
 Import ListNotations.
 Close Scope Q_scope.
 Open Scope string_scope.
@@ -59,3 +60,37 @@ Example C13_example :
   chain_to_string ("{mother} => {daughters}", "{mother} (=> {daughters})") exC13 =
     VStr "D*+ => D0 (=> K_1(1270)+ pi0 (=> gamma gamma) pi0 (=> gamma gamma)) pi+".
 Proof. vm_compute. split; reflexivity. Qed.
+
+(* the descriptor determines the tree: with the default patterns, equal descriptor strings come only from chain dictionaries
+   that are equal up to the order of daughters at every level (branching fractions and model information are not part of a
+   descriptor).  Names may contain balanced parentheses but no blank and do not start with "("; every decay has a daughter. *)
+Theorem C13_descriptor_determines_tree : forall c c' top, wfc c -> wfc c' ->
+  descr dcfg top c = descr dcfg top c' -> ceq c c'.
+Proof. intros c c' top. exact (descr_injective (S (csz c)) c c' top (Nat.lt_succ_diag_r _)). Qed.
+Print Assumptions C13_descriptor_determines_tree.
+
+Theorem C13_descriptor_iff_same_tree : forall c c' top, wfc c -> wfc c' ->
+  (descr dcfg top c = descr dcfg top c' <-> ceq c c').
+Proof.
+  intros c c' top H H'. split; [apply C13_descriptor_determines_tree; assumption|].
+  intro E. apply (descr_order_canonical dcfg (S (csz c))); [apply le_n|exact E].
+Qed.
+Print Assumptions C13_descriptor_iff_same_tree.
+
+(* the pieces of a descriptor are recovered by cutting at blanks outside parentheses *)
+Theorem C13_reader : forall c, wfc c ->
+  split_top (descr dcfg true c) 0 "" = body c.
+Proof.
+  intros c H. rewrite (proj1 (descr_forms c H)). apply split_join; [|apply body_nonempty].
+  apply (wf_atoms (S (csz c))); [apply Nat.lt_succ_diag_r|exact H].
+Qed.
+Print Assumptions C13_reader.
+
+Definition ex13 : cdict :=
+  CD "B0" [CM 1 [ChainDict.FName "K*(892)0"; FSub (CD "D*(2010)-" [CM (1#2) [ChainDict.FName "pi-"; FSub (CD "anti-D0" [CM 1 [ChainDict.FName "K+"; ChainDict.FName "pi-"] []])] []])] []].
+Example C13_example_wf : wfc ex13 /\ descr dcfg true ex13 = "B0 -> (D*(2010)- -> (anti-D0 -> K+ pi-) pi-) K*(892)0".
+Proof.
+  split; [|vm_compute; reflexivity].
+  repeat (first [apply wfc_intro | apply wff_name | apply wff_sub | apply Forall_cons | apply Forall_nil
+                | (split; [split; [discriminate|reflexivity]|reflexivity]) | discriminate]).
+Qed.
